@@ -312,6 +312,14 @@ var bCmds = []bCmd{
 	{"worker-scan-deps-dir", func(int) []string {
 		return []string{"internal-worker", "scan", "--deps", "--deps-depth", "transitive", "--db", "sigs.json", "--target", "mod"}
 	}, true},
+	// a target that carries a vendor tree (vendor/modules.txt): the loader must still resolve
+	// the read-only module mode, whatever the untrusted target ships
+	{"scan-deps-vendored-dir", func(int) []string {
+		return []string{"scan", "--no-sandbox", "--deps", "--db", "sigs.json", "modv"}
+	}, true},
+	{"scan-deps-vendored-file", func(int) []string {
+		return []string{"scan", "--no-sandbox", "--deps", "--deps-depth", "transitive", "--db", "sigs.json", "modv/main.go"}
+	}, false},
 	{"check-dir-strict", func(int) []string { return []string{"check", "--no-sandbox", "--strict", "mod"} }, false},
 	{"scan-file", func(int) []string { return []string{"scan", "--no-sandbox", "--db", "sigs.json", "mod/main.go"} }, false},
 	{"worker-diff", func(int) []string { return []string{"internal-worker", "diff", "mod/main.go", "modb/main.go"} }, false},
@@ -433,12 +441,16 @@ type bRun struct {
 
 func setupB(dir string) error {
 	files := map[string]string{
-		"mod/go.mod":     "module example.test/root\n\ngo 1.24\n\nrequire example.test/dep v0.0.0\n\nreplace example.test/dep => ./dep\n",
-		"mod/dep/go.mod": "module example.test/dep\n\ngo 1.24\n",
-		"mod/dep/dep.go": "package dep\n\nfunc Twice(x int) int { return x + x }\n",
-		"mod/main.go":    "package main\n\nimport (\n\t\"fmt\"\n\n\t\"example.test/dep\"\n)\n\nfunc work(n int) int {\n\ts := 0\n\tfor i := 0; i < n; i++ {\n\t\ts += dep.Twice(i)\n\t}\n\treturn s\n}\n\nfunc main() { fmt.Println(work(3)) }\n",
-		"modb/go.mod":    "module example.test/root\n\ngo 1.24\n\nrequire example.test/dep v0.0.0\n\nreplace example.test/dep => ../mod/dep\n",
-		"modb/main.go":   "package main\n\nimport (\n\t\"fmt\"\n\n\t\"example.test/dep\"\n)\n\nfunc work(n int) int {\n\ts := 1\n\tfor i := n; i > 0; i-- {\n\t\ts += dep.Twice(i)\n\t}\n\treturn s\n}\n\nfunc main() { fmt.Println(work(4)) }\n",
+		"mod/go.mod":              "module example.test/root\n\ngo 1.24\n\nrequire example.test/dep v0.0.0\n\nreplace example.test/dep => ./dep\n",
+		"mod/dep/go.mod":          "module example.test/dep\n\ngo 1.24\n",
+		"mod/dep/dep.go":          "package dep\n\nfunc Twice(x int) int { return x + x }\n",
+		"mod/main.go":             "package main\n\nimport (\n\t\"fmt\"\n\n\t\"example.test/dep\"\n)\n\nfunc work(n int) int {\n\ts := 0\n\tfor i := 0; i < n; i++ {\n\t\ts += dep.Twice(i)\n\t}\n\treturn s\n}\n\nfunc main() { fmt.Println(work(3)) }\n",
+		"modv/go.mod":             "module example.test/vroot\n\ngo 1.24\n",
+		"modv/vendor/modules.txt": "",
+		"modv/inner/inner.go":     "package inner\n\nfunc Thrice(x int) int { return 3 * x }\n",
+		"modv/main.go":            "package main\n\nimport (\n\t\"fmt\"\n\n\t\"example.test/vroot/inner\"\n)\n\nfunc work(n int) int {\n\ts := 0\n\tfor i := 0; i < n; i++ {\n\t\ts += inner.Thrice(i)\n\t}\n\treturn s\n}\n\nfunc main() { fmt.Println(work(3)) }\n",
+		"modb/go.mod":             "module example.test/root\n\ngo 1.24\n\nrequire example.test/dep v0.0.0\n\nreplace example.test/dep => ../mod/dep\n",
+		"modb/main.go":            "package main\n\nimport (\n\t\"fmt\"\n\n\t\"example.test/dep\"\n)\n\nfunc work(n int) int {\n\ts := 1\n\tfor i := n; i > 0; i-- {\n\t\ts += dep.Twice(i)\n\t}\n\treturn s\n}\n\nfunc main() { fmt.Println(work(4)) }\n",
 	}
 	for p, c := range files {
 		fp := filepath.Join(dir, p)
